@@ -10,6 +10,10 @@ import (
 	"fmt"
 	"path/filepath"
 	"sort"
+	"time"
+
+	"github.com/gopacket/gopacket"
+	"github.com/gopacket/gopacket/layers"
 
 	"github.com/spq/pkappa2/internal/index"
 	"github.com/spq/pkappa2/internal/query"
@@ -271,4 +275,15 @@ func (v *View) VerifCached(conv string, id uint64) (string, bool) {
 		}
 	}
 	return "!", true
+}
+
+// VerifFeedPcapOverIP hands packets to the PCAP-over-IP packet handler exactly
+// as an endpoint reader goroutine does (manager.go: `mgr.pcapOverIPPackets <-
+// pcapOverIPPacket{lt, data, ci}`): the socket and libpcap are replaced by the
+// caller, the handler, the capture writer and the import they queue are real.
+func (mgr *Manager) VerifFeedPcapOverIP(frames [][]byte, timesUS []int64) {
+	for i, f := range frames {
+		ci := gopacket.CaptureInfo{Timestamp: time.UnixMicro(timesUS[i]), CaptureLength: len(f), Length: len(f)}
+		mgr.pcapOverIPPackets <- pcapOverIPPacket{layers.LinkTypeEthernet, f, ci}
+	}
 }
